@@ -112,6 +112,16 @@ func c13(e *Env) {
 		compression := ""        // model: compression in force on this connection
 		var startVer byte        // version of the last successful STARTUP on this connection (0 = none yet)
 		seqLen := 2 + c.Choose("seqlen", 11)
+		// a third of the connections pipeline: several frames are sent before the answers to the
+		// earlier ones are awaited (every frame still gets exactly one answer, on its own stream, in
+		// its own version, decided by the frames before it)
+		pipelined := c.Choose("pipelined", 3) == 2
+		type pend struct {
+			req                                            *world.ClientReq
+			expect, desc, kind, compName, dataTok, compInF string
+			vbyte                                          byte
+		}
+		var batch []pend
 		for i := 0; i < seqLen && !w.Stopped() && h.Connected(); i++ {
 			// ---- generate one frame
 			var vbyte byte
@@ -257,14 +267,37 @@ func c13(e *Env) {
 			}
 			framesSent++
 			req := h.SendRaw(stream, kind, "", raw, msg)
-			before := len(h.Reqs)
-			_ = before
-			w.RunUntil(func() bool { return len(req.Replies) > 0 || !h.Connected() }, time.Minute)
+			desc := fmt.Sprintf("frame #%d on hostile connection %d: version byte %d%s, %s (max version %s)", i+1, k+1, vbyte&0x7f, map[bool]string{true: " with response bit", false: ""}[response], kind, max)
+			batch = append(batch, pend{req: req, expect: expect, desc: desc, kind: kind, compName: compName, dataTok: dataTok, compInF: compression, vbyte: vbyte})
+			if expect == "ready" && kind == "startup" {
+				// the model of the connection moves on when the frame is sent: the frames after it
+				// are generated (and judged) under what this one establishes
+				startVer = vbyte
+				if compName != "" || compression == "" {
+					compression = strings.ToLower(compName)
+				}
+			}
+			// (a forwarded request is answered in the compression of the moment it was sent: no
+			// STARTUP may overtake it, so its answer is awaited)
+			if pipelined && expect != "error-or-close" && kind != "data" && i < seqLen-1 && len(batch) < 6 && c.Choose("pipeline-more", 3) != 0 {
+				e.Res.Stats["probe.c13.frame_sent_before_earlier_answer"]++
+				continue
+			}
+			w.RunUntil(func() bool {
+				if !h.Connected() {
+					return true
+				}
+				for _, p := range batch {
+					if len(p.req.Replies) == 0 {
+						return false
+					}
+				}
+				return true
+			}, time.Minute)
 			w.Quiesce()
 			if w.Stopped() {
 				return
 			}
-			desc := fmt.Sprintf("frame #%d on hostile connection %d: version byte %d%s, %s (max version %s)", i+1, k+1, vbyte&0x7f, map[bool]string{true: " with response bit", false: ""}[response], kind, max)
 			if len(h.UndecodableFromProxy) > 0 {
 				w.Violate("c13-reply", "undecodable-reply", desc+": the proxy answered with bytes the reference codec cannot decode: "+h.UndecodableFromProxy[0])
 				return
@@ -273,81 +306,87 @@ func c13(e *Env) {
 				// client.OnData already raised the violation (more than one frame for one request)
 				return
 			}
-			rm := replyMsg(req)
-			closed := !h.Connected()
-			switch expect {
-			case "error-or-close":
-				if rm != nil {
-					if pe, ok := rm.(*message.ProtocolError); !ok {
-						w.Violate("c13-reply", "bad-frame-wrong-reply", fmt.Sprintf("%s: expected a protocol error or a closed connection, got %v", desc, rm))
+			lastClosing := batch[len(batch)-1].expect == "error-or-close"
+			for bi, p := range batch {
+				req, expect, desc, kind, compName, dataTok, vbyte := p.req, p.expect, p.desc, p.kind, p.compName, p.dataTok, p.vbyte
+				compression := p.compInF
+				rm := replyMsg(req)
+				// (a connection closed by the last frame of a batch says nothing about the earlier ones)
+				closed := !h.Connected() && (bi == len(batch)-1 || !lastClosing)
+				if rm == nil && lastClosing && bi < len(batch)-1 && !h.Connected() {
+					// the connection was closed on the offending last frame before the answer to this
+					// earlier one was written: a closed connection owes nothing more
+					e.Res.Stats["probe.c13.answer_lost_to_close_on_later_frame"]++
+					continue
+				}
+				switch expect {
+				case "error-or-close":
+					if rm != nil {
+						if pe, ok := rm.(*message.ProtocolError); !ok {
+							w.Violate("c13-reply", "bad-frame-wrong-reply", fmt.Sprintf("%s: expected a protocol error or a closed connection, got %v", desc, rm))
+							return
+						} else {
+							_ = pe
+						}
+					} else if !closed {
+						w.Violate("c13-reply", "bad-frame-ignored", desc+": neither an error nor a closed connection")
 						return
-					} else {
-						_ = pe
 					}
-				} else if !closed {
-					w.Violate("c13-reply", "bad-frame-ignored", desc+": neither an error nor a closed connection")
-					return
-				}
-				e.Res.Stats["probe.c13.bad_version_or_direction"]++
-			case "version-error":
-				pe, ok := rm.(*message.ProtocolError)
-				if !ok {
-					w.Violate("c13-gate", "version-gate-no-protocol-error", fmt.Sprintf("%s: expected a protocol error naming the version, got %v (connection closed=%v)", desc, rm, closed))
-					return
-				}
-				if !strings.Contains(pe.ErrorMessage, fmt.Sprint(int(vbyte&0x7f))) {
-					w.Violate("c13-gate", "version-error-does-not-name-version", fmt.Sprintf("%s: error text %q does not contain the version number", desc, pe.ErrorMessage))
-					return
-				}
-				if closed {
-					w.Violate("c13-gate", "version-gate-closed-connection", desc+": the connection was closed instead of staying usable")
-					return
-				}
-				e.Res.Stats["probe.c13.version_gated"]++
-			case "supported":
-				if _, ok := rm.(*message.Supported); !ok {
-					w.Violate("c13-reply", "options-wrong-reply", fmt.Sprintf("%s: expected SUPPORTED, got %v (closed=%v)", desc, rm, closed))
-					return
-				}
-			case "ready":
-				if _, ok := rm.(*message.Ready); !ok {
-					w.Violate("c13-reply", kind+"-wrong-reply", fmt.Sprintf("%s: expected READY, got %v (closed=%v)", desc, rm, closed))
-					return
-				}
-				if kind == "startup" {
-					startVer = vbyte
-					if compName != "" || compression == "" {
-						compression = strings.ToLower(compName)
+					e.Res.Stats["probe.c13.bad_version_or_direction"]++
+				case "version-error":
+					pe, ok := rm.(*message.ProtocolError)
+					if !ok {
+						w.Violate("c13-gate", "version-gate-no-protocol-error", fmt.Sprintf("%s: expected a protocol error naming the version, got %v (connection closed=%v)", desc, rm, closed))
+						return
 					}
-					_ = compression
-					if compName != "" {
+					if !strings.Contains(pe.ErrorMessage, fmt.Sprint(int(vbyte&0x7f))) {
+						w.Violate("c13-gate", "version-error-does-not-name-version", fmt.Sprintf("%s: error text %q does not contain the version number", desc, pe.ErrorMessage))
+						return
+					}
+					if closed {
+						w.Violate("c13-gate", "version-gate-closed-connection", desc+": the connection was closed instead of staying usable")
+						return
+					}
+					e.Res.Stats["probe.c13.version_gated"]++
+				case "supported":
+					if _, ok := rm.(*message.Supported); !ok {
+						w.Violate("c13-reply", "options-wrong-reply", fmt.Sprintf("%s: expected SUPPORTED, got %v (closed=%v)", desc, rm, closed))
+						return
+					}
+				case "ready":
+					if _, ok := rm.(*message.Ready); !ok {
+						w.Violate("c13-reply", kind+"-wrong-reply", fmt.Sprintf("%s: expected READY, got %v (closed=%v)", desc, rm, closed))
+						return
+					}
+					if kind == "startup" && compName != "" {
 						e.Res.Stats["probe.c13.compression_negotiated"]++
 					}
-				}
-			case "compression-error":
-				if _, ok := rm.(message.Error); !ok {
-					w.Violate("c13-compression", "unsupported-compression-no-error", fmt.Sprintf("%s: STARTUP with COMPRESSION=%s expected an ERROR, got %v", desc, compName, rm))
-					return
-				}
-				e.Res.Stats["probe.c13.unsupported_compression"]++
-			case "unsupported-error":
-				if _, ok := rm.(message.Error); !ok {
-					w.Violate("c13-reply", "unsupported-opcode-wrong-reply", fmt.Sprintf("%s: expected an ERROR, got %v (closed=%v)", desc, rm, closed))
-					return
-				}
-			case "data-rows":
-				rr, ok := rm.(*message.RowsResult)
-				if !ok || len(rr.Data) != 1 || string(rr.Data[0][0]) != dataTok {
-					w.Violate("c13-data", "request-after-handshake-not-served", fmt.Sprintf("%s: an ordinary request sent after the successful STARTUP on this connection (compression in force %q) expected its row, got %v (closed=%v)", desc, compression, rm, closed))
-					return
-				}
-				e.Res.Stats["probe.c13.data_request_between_handshake_frames"]++
-			case "rows":
-				if _, ok := rm.(*message.RowsResult); !ok {
-					w.Violate("c13-reply", "system-query-wrong-reply", fmt.Sprintf("%s: expected ROWS, got %v (closed=%v)", desc, rm, closed))
-					return
+				case "compression-error":
+					if _, ok := rm.(message.Error); !ok {
+						w.Violate("c13-compression", "unsupported-compression-no-error", fmt.Sprintf("%s: STARTUP with COMPRESSION=%s expected an ERROR, got %v", desc, compName, rm))
+						return
+					}
+					e.Res.Stats["probe.c13.unsupported_compression"]++
+				case "unsupported-error":
+					if _, ok := rm.(message.Error); !ok {
+						w.Violate("c13-reply", "unsupported-opcode-wrong-reply", fmt.Sprintf("%s: expected an ERROR, got %v (closed=%v)", desc, rm, closed))
+						return
+					}
+				case "data-rows":
+					rr, ok := rm.(*message.RowsResult)
+					if !ok || len(rr.Data) != 1 || string(rr.Data[0][0]) != dataTok {
+						w.Violate("c13-data", "request-after-handshake-not-served", fmt.Sprintf("%s: an ordinary request sent after the successful STARTUP on this connection (compression in force %q) expected its row, got %v (closed=%v)", desc, compression, rm, closed))
+						return
+					}
+					e.Res.Stats["probe.c13.data_request_between_handshake_frames"]++
+				case "rows":
+					if _, ok := rm.(*message.RowsResult); !ok {
+						w.Violate("c13-reply", "system-query-wrong-reply", fmt.Sprintf("%s: expected ROWS, got %v (closed=%v)", desc, rm, closed))
+						return
+					}
 				}
 			}
+			batch = batch[:0]
 			// exactly one frame: nothing else may trail the answer (e.g. READY after an ERROR)
 			w.RunUntil(func() bool { return false }, time.Second)
 			if w.Stopped() {
